@@ -410,7 +410,7 @@ if 'thorough' in PROPS['C15']['mir']:
     PROPS['C15']['mir']['thorough'].append(mrun(STACK, nmax=6))
 PROPS['C15']['bounds'] += ' M (stack.*): boxed generate / try_boxed_from_iter / FromIterator for Box / boxed map (N <= 3 unrolled, size_of::<T>() any 64-bit value): no function reached on a feasible path of the operation has a local, argument or return slot that contains a GenericArray by value while N * size_of::<T>() >= 256 KiB is satisfiable (the frame of a function holds all of its locals; confirmed natively by building 0.5 - 4 MiB arrays on a thread with a 256 KiB stack).'
 PROPS['C15']['outside'] = [o for o in PROPS['C15']['outside'] if 'stack depth' not in o] + ['stack use of box_arr! (a macro: expanded in the caller, no MIR body in the crate) and frames of core / alloc callees (summaries); stack depth other than whole-array frames']
-PROPS['C15']['technique'] = PROPS['C15'].get('technique', 'bounded model checking with Kani/CBMC') + ' + symbolic execution of rustc MIR with z3 for the re-boxing conversions (Vec / Box<[T]> by contract; all N, L, CAP)'
+PROPS['C15']['technique'] = PROPS['C15'].get('technique', 'bounded model checking with Kani/CBMC') + ' + symbolic execution of rustc MIR with z3 for the re-boxing conversions (Vec / Box<[T]> by contract; all N, L, CAP) and for the stack clause (path feasibility of every frame that holds a whole array by value in the boxed constructors, size_of::<T>() symbolic)'
 
 # fifth round: an overridden clone_from (C04); C05 also runs the fold family (an element destructor that panics inside the closure is a panic
 # of caller code at that call)
